@@ -25,8 +25,10 @@ func behTerm(b Beh) string {
 	if b.ExitOnDone >= 0 {
 		eod = fmt.Sprintf("(Some %d)", b.ExitOnDone)
 	}
-	return fmt.Sprintf("(mkBeh %s %s %s %s %s %s)", death, gen.Bool(b.Ign), gen.Bool(b.Fork),
-		gen.Bool(!b.TransFail), eod, gen.Bool(b.BadStart))
+	// a device that acknowledges without moving is, for the unchanged code, a device whose transitions
+	// fail (all of them, resp. the last step of the teardown walk)
+	return fmt.Sprintf("(mkBeh %s %s %s %s %s %s %s)", death, gen.Bool(b.Ign), gen.Bool(b.Fork),
+		gen.Bool(!b.TransFail && !b.Sticky), eod, gen.Bool(b.BadStart), gen.Bool(!b.StickyExit))
 }
 
 var hactTerm = map[string]string{
@@ -130,6 +132,8 @@ func corpus() []Scenario {
 		{Kind: "ctl", Beh: Beh{Fork: true, BadStart: true, ExitOnDone: -1}, Sched: sch("launch listen ready kill settle")}, // was C17-k: wrong start state, group swept
 		{Kind: "ctl", Beh: Beh{Fork: true, ExitOnDone: -1}, Sched: sch("launch listen starve kill settle")},          // was C17-m: start-up poll times out (30 s), group killed
 		{Kind: "ctl", Beh: Beh{Ign: true, Fork: true, ExitOnDone: -1}, Sched: sch("launch starve kill settle")},     // the device never listens: dial times out (30 s), TERM/INT/KILL to the group
+		{Kind: "ctl", Beh: Beh{Sticky: true, ExitOnDone: -1}, Sched: sch("launch listen ready kill settle")},                        // acknowledges EXIT, stays in STANDBY
+		{Kind: "ctl", Beh: Beh{StickyExit: true, Fork: true, ExitOnDone: -1}, Sched: sch("launch listen ready conf start kill settle")}, // STOP, RESET performed, EXIT acknowledged only
 		{Kind: "ctl", Beh: Beh{Ign: true, ExitOnDone: -1}, Sched: sch("launch listen ready conf start kill settle")}, // full escalation
 		{Kind: "ctl", Beh: Beh{ExitOnDone: 0}, Sched: sch("launch listen ready kill settle")},    // leaves on DONE
 		{Kind: "ctl", Beh: Beh{TransFail: true, ExitOnDone: -1}, Sched: sch("launch listen ready conf kill settle")}, // KILLED
@@ -161,6 +165,12 @@ func genBeh(r *gen.Rand, kind string) Beh {
 			b.ExitOnDone = 2
 		}
 		b.BadStart = r.Chance(1, 10)
+		switch r.Intn(8) { // devices that acknowledge teardown steps without moving
+		case 0:
+			b.Sticky = true
+		case 1:
+			b.StickyExit = true
+		}
 	}
 	return b
 }
@@ -299,7 +309,7 @@ func randomSched(r *gen.Rand, kind string, b Beh) []string {
 				a = "reset"
 			}
 			out = append(out, a)
-			if !b.TransFail {
+			if !b.TransFail && !b.Sticky {
 				st = dst[a]
 			}
 		}
